@@ -15,7 +15,10 @@ impl Utf8Accum {
         // Plain and stupid utf-8 validation
         // Bytes are supposed to be human input so it's okay to be not blazing fast
 
-        if byte >= 0xF8 {
+        if byte >= 0xF5 || byte == 0xC0 || byte == 0xC1 {
+            // these bytes never appear in utf-8 (overlong encodings or values above 0x10FFFF)
+            // drop whatever was collected
+            self.expected = 0;
             return None;
         } else if byte >= 0xF0 {
             // this is first octet of 4-byte value
@@ -33,7 +36,9 @@ impl Utf8Accum {
             self.partial = 1;
             self.expected = 1;
         } else if byte >= 0x80 {
-            if self.expected > 0 {
+            if self.expected > 0
+                && (self.partial != 1 || Self::is_valid_second(self.buffer[0], byte))
+            {
                 // this is one of other octets of multi-byte value
                 self.buffer[self.partial as usize] = byte;
                 self.partial += 1;
@@ -45,6 +50,9 @@ impl Utf8Accum {
                         return Some(core::str::from_utf8_unchecked(&self.buffer[..len]));
                     }
                 }
+            } else {
+                // unexpected octet, so drop unfinished value
+                self.expected = 0;
             }
         } else {
             self.expected = 0;
@@ -56,6 +64,20 @@ impl Utf8Accum {
         }
 
         None
+    }
+}
+
+impl Utf8Accum {
+    /// Checks second octet of multi-byte value (first octet can restrict its range):
+    /// overlong encodings, surrogates and values above 0x10FFFF are not valid utf-8
+    fn is_valid_second(first: u8, second: u8) -> bool {
+        match first {
+            0xE0 => second >= 0xA0,
+            0xED => second < 0xA0,
+            0xF0 => second >= 0x90,
+            0xF4 => second < 0x90,
+            _ => true,
+        }
     }
 }
 
